@@ -28,6 +28,7 @@ type c03Case struct {
 	PrePerm     []int
 	ProofMode   string `json:",omitempty"` // ECDSA: "mod" / "fac": only that proof is switched on, "none": neither
 	IDStyle     string `json:",omitempty"` // "", "blank", "shared": free-form id strings of the parties
+	Poll        bool   `json:",omitempty"` // the application polls WaitingFor() on every party after every step
 	OtherGlobal bool   `json:",omitempty"` // process-global curve set to the curve this key generation does not use
 	GenPre      []int  `json:",omitempty"` // ECDSA: sorted party indices that pass no pre-parameters (the library generates them)
 }
@@ -61,6 +62,7 @@ func genC03(edd bool) func(t *rapid.T) c03Case {
 		c.PrePerm = rapid.Permutation([]int{0, 1, 2, 3, 4}).Draw(t, "preperm")
 		c.OtherGlobal = rapid.IntRange(0, 2).Draw(t, "otherGlobal") == 0
 		c.IDStyle = rapid.SampledFrom([]string{"", "", "", "blank", "shared"}).Draw(t, "idStyle")
+		c.Poll = rapid.Bool().Draw(t, "poll")
 		if !edd {
 			c.ProofMode = rapid.SampledFrom([]string{"", "", "", "mod", "fac", "none"}).Draw(t, "proofMode")
 		}
@@ -140,6 +142,10 @@ func runC03(c c03Case) (out ev.Outcome) {
 		net.CallBudget = 3 * time.Hour // pre-parameter generation happens inside Start
 	}
 	c.Sched.apply(net)
+	if c.Poll {
+		pollWaitingFor(net)
+		defer func() { out.Label += " polled" }()
+	}
 	if c.Bad != "" {
 		// inadmissible key set: every Start refuses, nothing is emitted, no key data
 		net.Run(sim.FIFO{}, 1000)
